@@ -651,7 +651,12 @@ class Builtins(OpsMixin, LoopsMixin):
         if isinstance(v, VObj):
             yield p, VClass([v.cls])
         else:
-            yield p, VClass(["?type"])
+            c = VClass(["?typeof"])
+            try:
+                c.of = box(v)          # type(v) of a plain value: usable in isinstance(x, type(v))
+            except TypeError:
+                c = VClass(["?type"])
+            yield p, c
 
     conversions = {"int": _conv_int, "float": _conv_float, "bool": _conv_bool, "str": _conv_str,
                    "tuple": _conv_tuple, "list": _conv_list, "slice": _conv_slice, "dict": _conv_dict,
@@ -753,7 +758,7 @@ class Builtins(OpsMixin, LoopsMixin):
     NUMERIC_CLASSES = {"int": ("VInt", "VBool"), "Integral": ("VInt", "VBool"), "float": ("VReal",),
                        "Number": ("VInt", "VBool", "VReal"), "Real": ("VInt", "VBool", "VReal"),
                        "bool": ("VBool",), "str": ("VStr",), "bytes": ("VBytes",), "slice": ("VSliceV",),
-                       "np.bool_": ("VBool",), "np.str_": (), "np.ndarray": ("VOpaque",)}
+                       "np.bool_": ("VBool",), "np.str_": (), "np.ndarray": ("VOpaque",), "type": ("VClass",)}
 
     def isinstance_cond(self, ex, p, v, names):
         """z3 Bool: isinstance(v, any of names)."""
@@ -824,7 +829,27 @@ class Builtins(OpsMixin, LoopsMixin):
             return [c.tag]
         raise Unsupported("class argument %r" % (c,))
 
+    def same_class_cond(self, x, v):
+        """isinstance(x, type(v)) for plain values: same Python class, or bool (a subclass of int) against int"""
+        tags = ["VNone", "VInt", "VReal", "VBool", "VStr", "VBytes", "VSliceV", "VEllipsis"]
+        same = [z3.And(getattr(Val, "is_" + t)(x), getattr(Val, "is_" + t)(v)) for t in tags]
+        seqs = [Val.is_VIntSeq, Val.is_VRealSeq, Val.is_VStrSeq, Val.is_VValSeq, Val.is_VSliceSeq]
+        anyseq_x = z3.Or(*[f(x) for f in seqs])
+        anyseq_v = z3.Or(*[f(v) for f in seqs])
+        return z3.Or(z3.Or(*same), z3.And(Val.is_VBool(x), Val.is_VInt(v)),
+                     z3.And(Val.is_VObj(x), Val.is_VObj(v), Val.cls(x) == Val.cls(v)),
+                     z3.And(anyseq_x, anyseq_v, self.SEQ_SAME_KIND(x, v)))
+
+    SEQ_SAME_KIND = z3.Function("seq_same_python_class", Val, Val, BoolS)      # list vs tuple is not tracked in Val
+
     def b_isinstance(self, ex, p, args, kwargs, node, f):
+        carg = ex.deref(p, args[1])
+        if isinstance(carg, VClass) and tuple(carg.names) == ("?typeof",) and hasattr(carg, "of"):
+            try:
+                yield p, VBool(self.same_class_cond(box(ex.deref(p, args[0])), carg.of))
+                return
+            except TypeError:
+                pass
         names = self.class_names(ex, p, args[1])
         yield p, VBool(self.isinstance_cond(ex, p, args[0], names))
 
@@ -849,6 +874,15 @@ class Builtins(OpsMixin, LoopsMixin):
                                      z3.And(Val.is_VOpaque(t), self.OPAQUE_ITERABLE(Val.ok(t)))))
             else:
                 yield p, VBool(isinstance(v, (VTuple, VSeq, VStr)))
+            return
+        if attr == "dtype":
+            # numpy arrays (and scalars of numpy type, not modelled) are the only values with .dtype
+            if isinstance(v, VDyn):
+                yield p, VBool(z3.And(Val.is_VOpaque(v.t), self.OPAQUE_NDARRAY(Val.ok(v.t))))
+            elif isinstance(v, VOpaque):
+                yield p, VBool(self.OPAQUE_NDARRAY(v.t))
+            else:
+                yield p, VBool(False)
             return
         if isinstance(v, VDyn):
             if attr in ("id", "name"):
